@@ -98,6 +98,10 @@ func c02Run(r *zsim.Run) {
 				w.Header().Set("X-Out", st.data)
 			case 5:
 				w.Header().Set("X-Mw", st.data) // a header an outer middleware has set already
+			case 6:
+				// a status code net/http refuses: WriteHeader panics (like any other panic of the handler)
+				rq.panicked = true
+				w.WriteHeader(st.code)
 			case 2:
 				rq.committed = true
 				w.WriteHeader(st.code)
@@ -160,7 +164,11 @@ func c02Run(r *zsim.Run) {
 						rq.steps = append(rq.steps, c02Step{kind: 3, data: fmt.Sprintf("<m%d-%d>", rq.id, s)})
 					case 5:
 						if f.Intn(3) == 2 {
-							rq.steps = append(rq.steps, c02Step{kind: 4, code: f.Intn(4)})
+							if f.Intn(4) == 3 {
+								rq.steps = append(rq.steps, c02Step{kind: 6, code: zsim.Pick(f, 0, 1000, 99)})
+							} else {
+								rq.steps = append(rq.steps, c02Step{kind: 4, code: f.Intn(4)})
+							}
 						}
 					}
 				}
@@ -259,7 +267,7 @@ func c02Judge(r *zsim.Run, rq *c02Req, rec *httptest.ResponseRecorder, panicked 
 	outerOnly := strings.Join(mw, ",")
 	wrote := false
 	for _, st := range rq.steps {
-		if st.kind == 4 {
+		if st.kind == 4 || st.kind == 6 {
 			break
 		}
 		switch st.kind {
